@@ -753,11 +753,37 @@ class Explorer:
                     del st.mem[k]
         st.epoch += 1
 
-    def _run(self, st, b):
-        body = self.body
-        fr = self.top
+    # callees that rules treat as named atoms / anchors are never expanded
+    ATOM_FUNCS = ('boolean::sweep_event::SweepEvent::<F>::is_vertical', 'boolean::sweep_event::SweepEvent::<F>::is_below',
+                  'boolean::sweep_event::SweepEvent::<F>::is_above')
+
+    def deep_inlinable(self, fr, t):
+        """a local, loop-free helper with branches that no rule knows by name: expanded path by path, so that extracting a
+        helper function out of an anchor does not change what the rules see"""
+        from facts import callee_name
+        if not self.inline or fr.depth >= 2:
+            return None
+        name = callee_name(t)
+        cb = self.facts.bodies.get(name)
+        if cb is None or name in CANON_PARAMS or name in self.ATOM_FUNCS or any(name.startswith(o) for o in self.opaque):
+            return None
+        if (cb.j.get('impl') or {}).get('auto_derived') or cb.j.get('kind') == 'Closure':
+            return None
+        if is_straight_line(cb) or cb.loops() or len(cb.blocks) > 80 or t['target'] is None:
+            return None
+        f = fr
+        while f is not None:
+            if f.body.id == name:
+                return None
+            f = getattr(f, 'parent', None)
+        return cb
+
+    def _run(self, st, b, fr=None, cont=None):
+        fr = fr or self.top
+        body = fr.body
+        top = fr is self.top
         while True:
-            if b in self.loops:
+            if top and b in self.loops:
                 if b in st.headers:
                     self._finish(st, 'backedge', b)
                     return
@@ -767,7 +793,8 @@ class Explorer:
                     pre[l] = self.load(st, self.top, (('loc', self.top.id, l), ()))
                 self._havoc(st, b)
                 st.path.events.append({'k': 'loophead', 'bb': b, 'depth': 0, 'pre': pre})
-            st.path.blocks.append(b)
+            if top:
+                st.path.blocks.append(b)
             bl = body.blocks[b]
             self.exec_stmts(st, fr, b, bl)
             t = bl['term']
@@ -775,7 +802,13 @@ class Explorer:
             if k == 'goto':
                 b = t['target']
             elif k == 'return':
-                self._finish(st, 'return')
+                if top:
+                    self._finish(st, 'return')
+                else:
+                    ret = self.load(st, fr, (('loc', fr.id, 0), ()))
+                    for kk in [kk for kk in st.mem if kk[0][0] == 'loc' and kk[0][1] == fr.id]:
+                        del st.mem[kk]
+                    cont(st, ret)
                 return
             elif k == 'unreachable':
                 self._finish(st, 'unreachable')
@@ -783,13 +816,31 @@ class Explorer:
             elif k == 'drop':
                 loc = self.loc_of(st, fr, t['place'])
                 st.path.events.append({'k': 'drop', 'ty': t['ty'], 'loc': loc, 'val': self.load(st, fr, loc),
-                                       'bb': b, 'line': t['line'], 'replace': t.get('replace', False), 'depth': 0,
+                                       'bb': b, 'line': t['line'], 'replace': t.get('replace', False), 'depth': fr.depth,
                                        'needs_drop': t.get('needs_drop', True), 'in': body.id})
                 b = t['target']
             elif k == 'assert':
                 self.record_assert(st, fr, b, t)
                 b = t['target']
             elif k == 'call':
+                cb = self.deep_inlinable(fr, t)
+                if cb is not None:
+                    from facts import callee_name
+                    args = tuple(self.operand(st, fr, a) for a in t['args'])
+                    ev = {'k': 'call', 'callee': callee_name(t), 'decl': callee_name(t), 'args': args, 'bb': b, 'line': t['line'],
+                          'epoch': st.epoch, 'term': t, 'exp': t.get('exp', False), 'depth': fr.depth, 'in': body.id,
+                          'inlined': True, 'expanded': True, 'pure': False, 'ret': ('c', ('zst', 'expanded'))}
+                    st.path.events.append(ev)
+                    f2 = Frame(cb, args, fr.depth + 1)
+                    f2.parent = fr
+                    self._frames[f2.id] = f2
+                    dest, target = t['dest'], t['target']
+
+                    def resume(st2, ret, fr=fr, dest=dest, target=target, cont=cont, ev=ev):
+                        self.store(st2, self.loc_of(st2, fr, dest), ret)
+                        self._run(st2, target, fr, cont)
+                    self._run(st, 0, f2, resume)
+                    return
                 ret = self.do_call(st, fr, b, t)
                 if t['target'] is None:
                     self._finish(st, 'diverge', st.path.events[-1])
@@ -824,8 +875,8 @@ class Explorer:
                     s2 = st.fork() if i < len(branches) - 1 else st
                     for (vv, cc) in normalise_cond(v, c):
                         s2.path.conds.append((vv, cc))
-                    s2.path.events.append({'k': 'branch', 'val': v, 'cond': c, 'bb': b, 'line': t['line'], 'depth': 0})
-                    self._run(s2, bb)
+                    s2.path.events.append({'k': 'branch', 'val': v, 'cond': c, 'bb': b, 'line': t['line'], 'depth': fr.depth})
+                    self._run(s2, bb, fr, cont)
                 return
             else:
                 self._finish(st, 'other', k)
